@@ -37,6 +37,18 @@ CLAIMED['C20'] = dict(
          'network; pattern lengths from a listed grid; head-pump curve concrete in the cost check. Known finding: annual_network_cost reads the efficiency percentage as a fraction.',
     ref='DESIGN.md section 4, C20')
 
+CLAIMED['C04'] = dict(
+    engine='symx+ctrlplane',
+    technique='symbolic execution of the real condition classes and of the real WNTRSimulator.run_sim time-stepping loop (Newton solve stubbed) on symbolic Int thresholds / start_clocktime; every feasible path explored; SMT (z3 LIA with mod by constants) proves the recorded timeline equals a reference timeline',
+    text='Unit: SimTimeCondition/TimeOfDayCondition.evaluate for all (prev, cur, threshold, start_clocktime) in the stated ranges: fires iff an instant lies in (prev, cur], '
+         'backtrack lands on it, range relations true exactly on their interval (once, daily, periodic). System: the real run_sim loop (presolve backtracking, priority sort, '
+         'rule grid, change tracker, result recording) on a 3-pipe network with up to 2 (thorough 3) simple controls or rules with symbolic thresholds: at every recorded step the '
+         'target status equals the reference (last instant wins, ties by priority; rules at positive multiples of the rule step), a step exists at every instant where the target changes, '
+         'all grid times are recorded, no other steps appear.',
+    note='Trusted: z3; the stub that replaces the Newton solve (time controls do not depend on hydraulics); configurations (H, R, report, duration) from a listed family; '
+         'equal-priority conflicting controls at the same instant left open.',
+    ref='DESIGN.md section 4, C04')
+
 NOT_APPLICABLE = {
     'C03': 'compares the numerical output of the closed EPANET shared library with a compiled Newton/SuperLU iteration; neither can be executed '
            'symbolically with the tools on this image and a contract standing in for EPANET would be the property itself (DESIGN.md section 5)',
@@ -72,6 +84,8 @@ def main():
              'kind_free_text': 'symbolic execution of the real Python code by z3 value proxies + DART-style path explorer; SMT decides each obligation'},
             {'name': 'amlsmt', 'path': 'vf/amlsmt.py', 'serves_properties': sorted(p for p in CLAIMED if 'amlsmt' in CLAIMED[p]['engine']),
              'kind_free_text': 'translation of the expression DAGs built by the real model builder (wntr.sim.aml) into z3 terms'},
+            {'name': 'ctrlplane', 'path': 'vf/ctrlplane.py', 'serves_properties': sorted(p for p in CLAIMED if 'ctrlplane' in CLAIMED[p]['engine']),
+             'kind_free_text': 'the real WNTRSimulator.run_sim executed on proxies with only the Newton solve replaced by a policy stub (contract H)'},
             {'name': 'crosshair', 'path': 'vf/ch', 'serves_properties': sorted(p for p in CLAIMED if 'crosshair' in CLAIMED[p]['engine']),
              'kind_free_text': 'CrossHair (symbolic execution of Python with z3) on integer code and edit histories'},
         ],
